@@ -79,6 +79,11 @@ CLAIMED = {
     level="Each round trip is decided exactly as an identity between the code's own formulas (per branch, including threshold-guarded arms reachable inside the stated domain); shortcut thresholds are compared with the domain by literal arithmetic. Branch cuts at +/-pi, gimbal lock and small-angle conditioning are not decided.",
     note="Half-angle atoms with double-angle expansion; arccos/arctan2 atoms with the usual sin/cos compositions; generic position inside the stated open domains (sin, cos of the half angle positive).",
     ref="DESIGN.md §2 C10"),
+ "C18": dict(
+    technique="AVN identities on the extracted metrics (argument swap, sign invariance, left/right invariance under a unit quaternion / its matrix, closed forms in d = q1.q2), form and literal-tolerance band of every zero shortcut, single-vs-batch twins on non-normalised rows",
+    level="Symmetry, sign invariance, bi-invariance and the closed forms are polynomial/trigonometric identities of the code's formulas, decided exactly for all pairs; each `return 0` shortcut must compare +/-q1 with q2 and its tolerance band must lie below the property's smallest angle. The triangle inequality is not an identity and is not decided.",
+    note="min/abs/arccos are uninterpreted symmetric atoms; unit quaternions carry declared unit relations; witnesses are sampled on the unit manifold.",
+    ref="DESIGN.md §2 C18"),
 }
 
 NOT_YET = "check not built yet in this session (work in progress; see DESIGN.md §2 for the planned static rules)"
